@@ -4,6 +4,12 @@
 #include <optional>
 #include "common_types.h"
 
+#ifdef TEAKRA_VERIF
+// Verification hook (off by default): reports every DSP memory word access to a
+// simulation harness before it happens. Defined by the harness.
+void teakra_verif_mem_access(std::uint32_t word_address, bool is_write);
+#endif
+
 namespace Teakra {
 struct SharedMemory {
     // We allocate our own memory if the user doesn't supply their own
@@ -19,12 +25,18 @@ struct SharedMemory {
     }
 
     u16 ReadWord(u32 word_address) const {
+#ifdef TEAKRA_VERIF
+        teakra_verif_mem_access(word_address, false);
+#endif
         u32 byte_address = word_address * 2;
         u8 low = raw[byte_address];
         u8 high = raw[byte_address + 1];
         return low | ((u16)high << 8);
     }
     void WriteWord(u32 word_address, u16 value) {
+#ifdef TEAKRA_VERIF
+        teakra_verif_mem_access(word_address, true);
+#endif
         u8 low = value & 0xFF;
         u8 high = value >> 8;
         u32 byte_address = word_address * 2;
